@@ -149,7 +149,7 @@ func (e *env) runHist(h hist) {
 		mark := int64(e.log.Len())
 		obsv := s.do(c)
 		if !s.quiesce() {
-			rep.Inconclusive = append(rep.Inconclusive, fmt.Sprintf("history %d: server not quiescent after call %d (%s)", h.Index, j, c.Class))
+			rep.Inconclusive = append(rep.Inconclusive, fmt.Sprintf("history %d: server not quiescent after call %d (%s); vgirpc goroutines: %.1500s", h.Index, j, c.Class, wire.Goroutines("vgirpc.")))
 			return
 		}
 		fw1, em1 := fwAlloc(), e.emit.CurrentAlloc()
